@@ -8,56 +8,15 @@ import (
 	"verif/gosym/smt"
 )
 
-func (m *M) strEq(a, b StrV) *smt.Term {
-	if a.IsB && b.IsB {
-		if len(a.Bytes) != len(b.Bytes) {
-			return smt.False
-		}
-		var cs []*smt.Term
-		for i := range a.Bytes {
-			cs = append(cs, smt.Eq(a.Bytes[i], b.Bytes[i]))
-		}
-		return smt.And(cs...)
-	}
-	if a.IsB && b.IsConst() {
-		b = constToBytes(b)
-		return m.strEq(a, b)
-	}
-	if b.IsB && a.IsConst() {
-		a = constToBytes(a)
-		return m.strEq(a, b)
-	}
-	return smt.Eq(a.Term(), b.Term())
-}
+func (m *M) strEq(a, b StrV) *smt.Term { return bEq(a, b) }
 
-func constToBytes(s StrV) StrV {
-	c := s.ConstVal()
-	bs := make([]*smt.Term, len(c))
-	for i := 0; i < len(c); i++ {
-		bs[i] = smt.BVC(8, uint64(c[i]))
-	}
-	return strB(bs)
-}
+func constToBytes(s StrV) StrV { return s }
 
 func (m *M) strLen(s StrV) *smt.Term { // BV64
-	if s.IsB {
-		return smt.BVC(64, uint64(len(s.Bytes)))
-	}
-	return smt.Int2BVSmall(64, smt.StrLen(s.T))
+	return smt.ZeroExt(64-lw, bLen(s))
 }
 
-func (m *M) strConcat(a, b StrV) StrV {
-	if a.IsB && b.IsB {
-		return strB(append(append([]*smt.Term(nil), a.Bytes...), b.Bytes...))
-	}
-	if a.IsB && b.IsConst() {
-		return m.strConcat(a, constToBytes(b))
-	}
-	if b.IsB && a.IsConst() {
-		return m.strConcat(constToBytes(a), b)
-	}
-	return strT(smt.StrConcat(a.Term(), b.Term()))
-}
+func (m *M) strConcat(a, b StrV) StrV { return bConcat(a, b) }
 
 // valueEq builds the equality condition of two Go values of static type t.
 func (m *M) valueEq(a, b Value, t types.Type) *smt.Term {
@@ -154,13 +113,13 @@ func (m *M) binop(op token.Token, xv, yv Value, xt, yt types.Type, rt types.Type
 		case token.ADD:
 			return m.strConcat(x, y)
 		case token.LSS:
-			return smt.StrLt(x.Term(), y.Term())
+			return bLess(x, y)
 		case token.GTR:
-			return smt.StrLt(y.Term(), x.Term())
+			return bLess(y, x)
 		case token.LEQ:
-			return smt.Not(smt.StrLt(y.Term(), x.Term()))
+			return smt.Not(bLess(y, x))
 		case token.GEQ:
-			return smt.Not(smt.StrLt(x.Term(), y.Term()))
+			return smt.Not(bLess(x, y))
 		}
 	case *smt.Term:
 		y := yv.(*smt.Term)
@@ -381,16 +340,9 @@ func (m *M) convert(v Value, from, to types.Type) Value {
 
 // strBytes returns the bytes of a string, forking on its length when symbolic.
 func (m *M) strBytes(s StrV) []*smt.Term {
-	if s.IsB {
+	if s.Len == nil {
 		return s.Bytes
 	}
-	if s.IsConst() {
-		return constToBytes(s).Bytes
-	}
-	n := m.chooseInt(m.strLen(s), 0, m.ex.Cfg.MaxStrLen+1, "strlen")
-	bs := make([]*smt.Term, n)
-	for i := 0; i < n; i++ {
-		bs[i] = smt.Int2BVSmall(8, smt.StrToCode(smt.StrAt(s.T, smt.IntC(int64(i)))))
-	}
-	return bs
+	n := m.chooseInt(s.Len, 0, len(s.Bytes)+1, "strlen")
+	return s.Bytes[:n]
 }
